@@ -83,6 +83,17 @@ Theorem C10_redundant_parentheses_anywhere p w q tp tw tq z t a :
   p_tokens (tp ++ TRef z :: tq) = Ok t -> nodoc z t = true -> d_atom tw a -> w <> [] ->
   parse T0 (p ++ w ++ q) = Ok (nsubst z a t) /\ parse T0 (p ++ "("%char :: w ++ ")"%char :: q) = Ok (nsubst z a t).
 Proof. exact (parens_redundant_text T0 HT0 p w q tp tw tq z t a). Qed.
+(* for an operand that follows a space or "(" and is followed by nothing, a space or ")", no hypothesis about the
+   tokenisation of the whole text is left: the tokens of the three parts are enough *)
+Theorem C10_redundant_parentheses_delimited p' c1 w q tp tw tq z t a :
+  (c1 = " "%char \/ c1 = "("%char) -> (forall r, w <> "+"%char :: r) ->
+  (q = [] \/ exists c q', q = c :: q' /\ (c = " "%char \/ c = ")"%char)) ->
+  lexo T0 (p' ++ [c1]) = Some tp -> lexo T0 w = Some tw -> lexo T0 q = Some tq ->
+  forallb (fun tk => negb (is_marker z tk)) tp = true -> forallb (fun tk => negb (is_marker z tk)) tq = true ->
+  p_tokens (tp ++ TRef z :: tq) = Ok t -> nodoc z t = true -> d_atom tw a -> w <> [] ->
+  parse T0 ((p' ++ [c1]) ++ w ++ q) = Ok (nsubst z a t) /\
+  parse T0 ((p' ++ [c1]) ++ "("%char :: w ++ ")"%char :: q) = Ok (nsubst z a t).
+Proof. exact (parens_redundant_delimited T0 HT0 p' c1 w q tp tw tq z t a). Qed.
 Example C10_redundant_parentheses_example :
   let p := s2l "MIT AND (Zlib OR " in let w := s2l "GPL-2.0-only WITH Classpath-exception-2.0" in let q := s2l ") AND ISC" in
   (exists tp tw tq t a, lexo T0 p = Some tp /\ lexo T0 w = Some tw /\ lexo T0 q = Some tq /\ lexo T0 (p ++ w ++ q) = Some (tp ++ tw ++ tq)
@@ -97,5 +108,5 @@ Example C10_example :
 Proof. vm_compute. split; reflexivity. Qed.
 
 (* axioms the property theorems of this file depend on (one traversal for all of them) *)
-Definition C10_theorems := (@C10, @C10_laws, @C10_and_or, @C10_extract, @C10_spaces_parentheses, @C10_spaces_anywhere, @C10_decomposition, @C10_operand_substitution, @C10_parentheses_group, @C10_redundant_parentheses_anywhere).
+Definition C10_theorems := (@C10, @C10_laws, @C10_and_or, @C10_extract, @C10_spaces_parentheses, @C10_spaces_anywhere, @C10_decomposition, @C10_operand_substitution, @C10_parentheses_group, @C10_redundant_parentheses_anywhere, @C10_redundant_parentheses_delimited).
 Redirect "assumptions/C10" Print Assumptions C10_theorems.
